@@ -7,7 +7,7 @@
 //     R ok <functions> <code bytes> | R err <Kind> + M <hex message>... | R panic <hex message>
 //   A panic inside one compilation is caught, reported, and the Vm is replaced.  opts: `-` or a
 //   comma-separated list of `run=1` (after an Ok compilation the source is also interpreted on a
-//   fresh Vm: `X ok|err <Kind>|panic <hex>`), `gc=default` (default here is gc=never: the property is
+//   fresh Vm: `X ok|err <Kind>|panic <hex>`), `stack=<KiB>` (compile on a thread with that stack), `gc=default` (default here is gc=never: the property is
 //   about the compiler, and the stress collector of the debug build makes Vm::with_built_ins slow).
 //   The watchdog of the harness covers the whole line; the driver re-runs the sources of a line that
 //   timed out one by one with `compile`.
@@ -23,7 +23,37 @@ fn count_functions(f: yarel::memory::Gc<yarel::object::ObjFunction>, n: &mut usi
     }
 }
 
+// `stack=<KiB>`: the whole command runs on a thread with that stack size instead of the 256 MiB case thread of the
+// harness (the CLI compiles on the 8 MiB main thread, an embedder's thread has 2 MiB by default): host recursion
+// proportional to the LENGTH of the text overflows there and aborts the process (the driver sees a crash).
 fn cmd_c03(args: &[&str], out: &mut Vec<String>) {
+    let mut stack_kib = 0usize;
+    for kv in args[0].split(',') {
+        if let Some(v) = kv.strip_prefix("stack=") {
+            stack_kib = v.parse().unwrap_or(0);
+        }
+    }
+    if stack_kib == 0 {
+        cmd_c03_here(args, out);
+        return;
+    }
+    let owned: Vec<String> = args.iter().map(|a| (*a).to_owned()).collect();
+    let h = std::thread::Builder::new()
+        .stack_size(stack_kib << 10)
+        .spawn(move || {
+            let refs: Vec<&str> = owned.iter().map(|a| a.as_str()).collect();
+            let mut o = Vec::new();
+            cmd_c03_here(&refs, &mut o);
+            o
+        })
+        .unwrap();
+    match h.join() {
+        Ok(o) => out.extend(o),
+        Err(_) => out.push("R panic 6a6f696e".to_owned()),
+    }
+}
+
+fn cmd_c03_here(args: &[&str], out: &mut Vec<String>) {
     let mut run = false;
     let mut policy = gcv::Policy::Never;
     for kv in args[0].split(',') {
